@@ -15,7 +15,7 @@ import traceback
 
 from . import rng
 
-SCENARIO_WATCHDOG_S = 300
+SCENARIO_WATCHDOG_S = 1200
 
 
 def canon(obj) -> str:
